@@ -61,31 +61,39 @@ def is_zero(x):
     return False
 
 
-def inject(vec, flows):
+def inject(vec, flows, reverse=False):
+    """store the non-zero flows; `reverse` inserts them in descending index order (the insertion
+    order of the sparse dict is part of a stream's history and drives e.g. index_overlap keys)"""
     d = vec.dct
     d.clear()
-    for i, x in enumerate(flows):
-        if not is_zero(x):
-            d[i] = x
+    items = [(i, x) for i, x in enumerate(flows) if not is_zero(x)]
+    for i, x in (reversed(items) if reverse else items):
+        d[i] = x
 
 
-def mk_stream(E, name, thermo, phase='l', flows=None, presence=None):
+def mk_stream(E, name, thermo, phase='l', flows=None, presence=None, vary_order=False):
     s = tmo.Stream(None, thermo=thermo, phase=phase)
     n = thermo.chemicals.size
     if flows is None:
         flows = sym_flows(E, name, n, presence)
-    inject(s.imol.data, flows)
+    rev = False
+    if vary_order and sum(1 for x in flows if not is_zero(x)) >= 2:
+        rev = bool(E.choice(2, f'{name}-inserted-in-reverse-order'))
+    inject(s.imol.data, flows, rev)
     return s, flows
 
 
-def mk_multistream(E, name, thermo, phases='lg', flows=None, presence=None):
+def mk_multistream(E, name, thermo, phases='lg', flows=None, presence=None, vary_order=False):
     ms = tmo.MultiStream(None, thermo=thermo, phases=phases)
     n = thermo.chemicals.size
     order = ms.imol._phases
     out = {}
     for r, ph in enumerate(order):
         f = flows[ph] if flows is not None else sym_flows(E, f'{name}{ph}', n, presence)
-        inject(ms.imol.data.rows[r], f)
+        rev = False
+        if vary_order and r == 0 and sum(1 for x in f if not is_zero(x)) >= 2:
+            rev = bool(E.choice(2, f'{name}{ph}-inserted-in-reverse-order'))
+        inject(ms.imol.data.rows[r], f, rev)
         out[ph] = f
     return ms, out
 
